@@ -496,6 +496,7 @@ def run_program(cfg, obs, focus, tmpdir):
                     elif mode == 'save':
                         fn = os.path.join(tmpdir, 'restart-%d.pkl' % len(done))
                         s.SaveSolver(fn); s2 = LoadSolver(fn)
+                        if cfg.get('savefreq'): savefile = fn      # SaveSolver(filename) registers that file as the solver's restart file: later periodic dumps go there
                     else:
                         s2 = dill.loads(dill.dumps(s))
                     op[1] = mode
